@@ -484,7 +484,7 @@ struct Src {
 			return op == READ || op == STEP || op == RESET || op == CLONE || (op == CONSD && sp.rtype == 'd') || (op == CONSU && sp.rtype == 'd' && sp.text.find_first_not_of("1 ,") == std::string::npos);   // other numerals parse differently as unsigned
 		case F_BUFFER: case F_ARGS: return op == READ || op == ADV || op == RESET || op == CLONE || op >= PRB_I;
 		case F_CXXD: case F_CXXI: return op == READ || op == ADV || op == RESET || op == CONSD || op == CONSU;
-		default: return op != STEP && op != PRB_K;
+		default: return op != STEP && op != PRB_K && op != PRB_Y && op != PRB_Q;   // number generators: value() is stateless, two target types suffice
 		}
 	}
 	// one operation on implementation + model; false = violation reported (bad set) or op refused by the engine
@@ -1193,7 +1193,7 @@ static void warmup()
 	for (const Spec &s : v) {
 		Inst in;
 		if (in.create(s)) {
-			for (int i = 0; i < 4; ++i) { const value *val = in.it->value(); readval(val, s.rtype); in.it->advance(); }
+			for (int i = 0; i < 4; ++i) { const value *val = in.it->value(); readval(val, s.rtype); unsigned char b[16]; if (val) for (int t : prbtype) mpt_value_convert(val, t, b); in.it->advance(); }
 			in.it->reset(); double d; uint32_t u; mpt_iterator_consume(in.it, 'd', &d); mpt_iterator_consume(in.it, 'u', &u); if (s.fam != F_PROFILE) in.clone();
 		}
 		in.destroy();
@@ -1223,7 +1223,7 @@ void mc_explore(Run &r, const std::string &job)
 	if (job == "misc") { r.require("accepted:default"); r.require("refused:unknown"); }
 	if (job == "fac:3") { r.require("accepted:factor"); r.require("closed-form-checked:factor"); }
 	if (job == "profile:4") { r.require("closed-form-checked:poly"); r.require("closed-form-checked:boundary"); r.require("closed-form-checked:linear"); }
-	if (job == "text") r.require("accepted:text");
+	if (job == "text") { r.require("accepted:text"); r.require("convert_refused:y"); r.require("convert_accepted:i"); r.require("convert_accepted:k"); }
 	if (job == "buffer") { r.require("accepted:buffer"); r.require("accepted:args"); }
 	if (job == "cxx") { r.require("accepted:cxx-source"); r.require("empty-sources"); }
 	if (job == "api") r.require("accepted:boundary");
